@@ -885,6 +885,10 @@ class SigmaCIDRExpression(NoPlainConversionMixin, SigmaType):
     def __post_init__(self) -> None:
         """Verify if cidr is valid by re"""
         try:
+            if "%" in self.cidr:
+                # ip_network() accepts IPv6 addresses with a zone identifier (fe80::1%eth0); that
+                # is a property of a local interface, not of a network of addresses found in logs.
+                raise ValueError("zone identifiers are not allowed in CIDR expressions")
             self.network = ip_network(self.cidr)
         except ValueError as e:
             raise SigmaTypeError("Invalid CIDR expression: " + str(e), source=self.source)
